@@ -95,6 +95,7 @@ def run_case(case, ctx):
     win = os.path.join(d, "win.sgz")
     # the windowed conversion comes first (directly after the optional prior conversion), the reference after it
     if case["via"] == "api":
+        conv.leave_stale(win, repr(case["window"]) + repr(case["src"].get("values")))
         conv.segy_convert(S.path, win, rate, bs, reduce_iops=case["reduce"], header_detection=mode, window=tuple(WINDOW_TYPES[case.get("wtype") or "int"](v) for v in (i0, i1, x0, x1)))
         if have_ref:
             conv.segy_convert(ref_sgy, ref, rate, bs, header_detection=mode)
